@@ -40,7 +40,8 @@ func NewUnpackInfo(dst string, header *tar.Header) (UnpackInfo, error) {
 
 	// Check for paths outside our directory, they are forbidden
 	target := filepath.Clean(path)
-	if !pathWithin(target, filepath.Clean(dst)) {
+	cleanDst := filepath.Clean(dst)
+	if !pathWithin(target, cleanDst) {
 		return UnpackInfo{}, errors.New("invalid filename, traversal with \"..\" outside of current directory")
 	}
 
@@ -55,8 +56,16 @@ func NewUnpackInfo(dst string, header *tar.Header) (UnpackInfo, error) {
 	// immediate parent directory of the file name in the tarball, checking
 	// the mode on each to ensure we wouldn't be passing through any
 	// symlinks.
-	currentPath := dst // Start at the root of the unpacked tarball.
-	components := strings.Split(header.Name, "/")
+	//
+	// The components walked are those of the cleaned path below dst, not
+	// of the raw entry name: in a name such as "x/../link/file" the
+	// missing "x" would otherwise end the walk before "link" is examined.
+	currentPath := cleanDst // Start at the root of the unpacked tarball.
+	relTarget, err := filepath.Rel(cleanDst, target)
+	if err != nil {
+		return UnpackInfo{}, fmt.Errorf("failed to evaluate path %q: %w", header.Name, err)
+	}
+	components := strings.Split(relTarget, string(os.PathSeparator))
 
 	for i := 0; i < len(components)-1; i++ {
 		currentPath = filepath.Join(currentPath, components[i])
